@@ -35,6 +35,7 @@ class Machine:
         self.vals = {}      # did -> int
         self.ext = atom
         self.trace = []
+        self.param_values = False
 
     # ---- lvalues rooted at locals -------------------------------------------------------
     def locate(self, n):
@@ -80,8 +81,24 @@ class Machine:
         if n.k == "ImplicitCastExpr" and n.ck == "AtomicToNonAtomic":
             return None
         if self.ext is not None:
-            return self.ext(n)
+            v = self.ext(n)
+            if v is not None:
+                return v
+        if self.param_values and n.k == "ImplicitCastExpr" and n.ck == "LValueToRValue":
+            m = strip_parens(n.kids[0])
+            if m.k == "DeclRefExpr" and m.dk == "param" and m.did:
+                return self.param_value(m.did)
         return None
+
+    @staticmethod
+    def opaque(node):
+        """a distinct stand-in for a value that comes from memory the interpreter does not model"""
+        return 0x7E000000 + 0x10 * node.id
+
+    @staticmethod
+    def param_value(did):
+        """distinct, recognisable stand-in values for pointer parameters"""
+        return 0x50000 + 0x100 * did
 
     def eval(self, n):
         return ev(self.fn, n, self.atom)
@@ -99,7 +116,7 @@ class Machine:
                     try:
                         self.vals[d["did"]] = self.eval(init) & ((1 << 64) - 1) if type_info(d["t"]) is None else wrap(self.eval(init), d["t"])
                     except Unevaluable:
-                        self.vals.pop(d["did"], None)
+                        self.vals[d["did"]] = self.opaque(init)
             return
         if k == "BinaryOperator" and n.op == "=":
             loc = self.locate(n.kids[0])
@@ -107,7 +124,7 @@ class Machine:
                 try:
                     self.write(loc, self.eval(n.kids[1]))
                 except Unevaluable:
-                    self.vals.pop(loc[0], None)
+                    self.write(loc, self.opaque(n.kids[1]))
             return
         if k == "CompoundAssignOperator":
             loc = self.locate(n.kids[0])
